@@ -10,6 +10,9 @@
 (*                         rsqrt): relative error <= 2^-20                     *)
 (*   k = "rcp_safe"        judged for every finite x                           *)
 (*   k = "sign", "clampf", "clampi", "dru", "madd", "lerp", "deg2rad"          *)
+(*   k = "lerpd", "deg2radd", "clampd", "rcp_safed"   the double instantiations *)
+(*                         (binary64 patterns as four 16-bit quarters)         *)
+(*   k = "lerpi"           lerp<T> for an integer type T (operands as limbs)   *)
 (*   k = "runs"            complete run-length encoded table of a byte-valued  *)
 (*                         function of one float                               *)
 (*   k = "pack"            sampled channel tables of a packing function of     *)
@@ -30,6 +33,11 @@ ZZ(z) == SD(z.n = 1, z.m, 0)
 WellHalves(o, fields) == \A fld \in fields : IsHalves(o[fld])
 WellZ(z) == z.n \in {0, 1} /\ IsLimbs(z.m)
 
+\* the values of an integer type o.bits wide (o.sgn = 1: signed)
+TMax(o) == SD(FALSE, Sub(Pow2L(o.bits - o.sgn), One), 0)
+TMin(o) == IF o.sgn = 1 THEN SD(TRUE, Pow2L(o.bits - 1), 0) ELSE SDZero
+InsideD(o) == D64IsFinite(o.r) /\ SDLessEq(D64Val(o.lo), D64Val(o.r)) /\ SDLessEq(D64Val(o.r), D64Val(o.hi))
+
 \* is the record inside what the statement talks about?
 Judged(o) ==
   CASE o.k = "rcp"      -> InKernelDomain(H(o.x))
@@ -42,6 +50,11 @@ Judged(o) ==
     [] o.k = "madd"     -> IsFinite(H(o.a)) /\ IsFinite(H(o.b)) /\ IsFinite(H(o.c))
     [] o.k = "lerp"     -> IsFinite(H(o.f)) /\ IsFinite(H(o.a)) /\ IsFinite(H(o.b))
     [] o.k = "deg2rad"  -> IsFinite(H(o.x))
+    [] o.k = "lerpd"    -> IsFinite(H(o.f)) /\ D64IsFinite(o.a) /\ D64IsFinite(o.b)
+    [] o.k = "deg2radd" -> D64IsFinite(o.x) /\ D64Exp(o.x) <= 2000
+    [] o.k = "clampd"   -> D64IsFinite(o.x) /\ D64IsFinite(o.lo) /\ D64IsFinite(o.hi) /\ SDLessEq(D64Val(o.lo), D64Val(o.hi))
+    [] o.k = "rcp_safed" -> D64IsFinite(o.x)
+    [] o.k = "lerpi"    -> IsFinite(H(o.f)) /\ LerpIntStated(Val(H(o.f)), ZZ(o.a), ZZ(o.b), TMin(o), TMax(o))
     [] OTHER            -> TRUE
 
 Failures(o) ==
@@ -62,6 +75,14 @@ Failures(o) ==
     [] o.k = "madd"     -> IF MaddOk(H(o.a), H(o.b), H(o.c), H(o.r)) THEN {} ELSE {"definition"}
     [] o.k = "lerp"     -> IF LerpOk(H(o.f), H(o.a), H(o.b), H(o.r)) THEN {} ELSE {"definition"}
     [] o.k = "deg2rad"  -> IF Deg2RadOk(H(o.x), H(o.r)) THEN {} ELSE {"definition"}
+    [] o.k = "lerpd"    -> IF LerpD64Ok(H(o.f), o.a, o.b, o.r) THEN {} ELSE {"definition"}
+    [] o.k = "deg2radd" -> IF Deg2RadD64Ok(o.x, o.r) THEN {} ELSE {"definition"}
+    [] o.k = "clampd"   -> IF ~Judged(o) THEN {}
+                           ELSE (IF InsideD(o) THEN {} ELSE {"inside"})
+                                \cup (IF ~InsideD(o) \/ ZClampOk(D64Val(o.x), D64Val(o.lo), D64Val(o.hi), D64Val(o.r)) THEN {} ELSE {"equals-x"})
+    [] o.k = "rcp_safed" -> IF ~Judged(o) THEN {} ELSE (IF D64IsFinite(o.r) THEN {} ELSE {"finite"})
+                                                      \cup (IF RcpSafeD64Ok(o.x, o.r) \/ ~D64IsFinite(o.r) THEN {} ELSE {"sign"})
+    [] o.k = "lerpi"    -> IF ~IsFinite(H(o.f)) \/ LerpIntOk(Val(H(o.f)), ZZ(o.a), ZZ(o.b), ZZ(o.r), TMin(o), TMax(o)) THEN {} ELSE {"definition"}
     [] o.k = "runs"     -> RunFailures(o.runs) \ (IF o.truncated THEN {"cover"} ELSE {})     \* a table cut off by the recorder (more than 4096 runs) is judged on its prefix
     [] o.k = "pack"     -> UNION {ChanFailures(c, o.tabs[c]) : c \in 1..4}
                            \cup (IF \A i \in 1..Len(o.vecs) : VecOk(o.tabs, o.vecs[i]) THEN {} ELSE {"word-is-sum-of-channel-bytes"})
@@ -75,13 +96,17 @@ PosOf(x, lo, hi) == IF SDLess(x, lo) THEN "x<lower" ELSE IF SDLess(hi, x) THEN "
 FPos(x, lo, hi)  == IF ~ValLessEq(lo, x) THEN "x<lower" ELSE IF ~ValLessEq(x, hi) THEN "x>upper"
                     ELSE IF SameValue(lo, hi) THEN "x=lower=upper" ELSE IF SameValue(x, lo) THEN "x=lower" ELSE IF SameValue(x, hi) THEN "x=upper" ELSE "lower<x<upper"
 \* does a + b - 1 exceed the largest value of the operand type (o.bits wide, o.sgn = 1: signed)?
-TypeMax(o) == SD(FALSE, Sub(Pow2L(o.bits - o.sgn), One), 0)
+TypeMax(o) == TMax(o)
 Cls(o) ==
   CASE o.k \in {"rcp", "rsqrt", "rcp_safe", "sign"} -> [binade |-> H(o.x).e, sign |-> H(o.x).s, class |-> ClassOf(H(o.x))]
     [] o.k = "clampf"  -> [class |-> FPos(H(o.x), H(o.lo), H(o.hi))]
     [] o.k = "clampi"  -> [class |-> PosOf(ZZ(o.x), ZZ(o.lo), ZZ(o.hi))]
     [] o.k = "dru"     -> [class |-> IF SDLess(TypeMax(o), SDSub(SDAdd(ZZ(o.a), ZZ(o.b)), SDOne)) THEN "a+b-1>max" ELSE "a+b-1<=max"]
     [] o.k = "deg2rad" -> [class |-> ClassOf(H(o.x))]
+    [] o.k \in {"deg2radd", "rcp_safed"} -> [class |-> D64Class(o.x), sign |-> D64Sign(o.x)]
+    [] o.k = "clampd"  -> [class |-> PosOf(D64Val(o.x), D64Val(o.lo), D64Val(o.hi))]
+    [] o.k = "lerpi"   -> [class |-> IF LerpIntNearEdge(Val(H(o.f)), ZZ(o.a), ZZ(o.b), TMin(o), TMax(o)) THEN "float-value-may-leave-the-type" ELSE "inside-the-type"]
+    [] o.k = "dist"    -> [class |-> IF IsFinite(H(o.lo)) /\ IsFinite(H(o.hi)) /\ WidthOverflows(H(o.lo), H(o.hi)) THEN "upper-lower>FLT_MAX" ELSE "lower<=upper"]
     [] OTHER           -> [class |-> "-"]
 
 RejIdx == {i \in DOMAIN Obs : Failures(Obs[i]) # {}}
